@@ -73,8 +73,57 @@ func astDump(e grammar.Expression) string {
 	return sb.String()
 }
 
+// c13Doc: the SAME root struct type whose interface-typed field holds a map
+// in one datum and a struct (or nil, or a pointer) in the next: anything
+// memoised per (root type, selector) would be replayed on the wrong shape.
+type c13Doc struct {
+	Name string
+	Meta interface{}
+	L    []interface{}
+}
+type c13Meta struct {
+	Env  string `bexpr:"env"`
+	Tier int
+}
+
+func c13SameRootType(c *mon.Ctx, r *rand.Rand) {
+	data := []interface{}{
+		c13Doc{Name: "a", Meta: map[string]interface{}{"env": "prod"}, L: []interface{}{1}},
+		c13Doc{Name: "b", Meta: c13Meta{Env: "prod"}, L: []interface{}{"x"}},
+		c13Doc{Name: "c", Meta: map[string]interface{}{"other": 1}},
+		c13Doc{Name: "d", Meta: c13Meta{}},
+		c13Doc{Name: "e", Meta: nil},
+		&c13Doc{Name: "f", Meta: &c13Meta{Env: "dev"}},
+		&c13Doc{Name: "g", Meta: map[string]string{"zone": "x"}},
+		c13Doc{Name: "h", Meta: map[string]interface{}{"env": map[string]interface{}{"k": 1}}, L: []interface{}{[]interface{}{}}},
+	}
+	exprs := []string{`Meta.env == "prod"`, `Meta.env != "prod"`, `Meta.zone is empty`, `Meta.zone == x`, `Meta.Tier == 0`, `Meta.env.k == 1`, `any L as x { x == 1 }`, `Meta.nosuch matches "a"`, `"prod" in Meta.env`, `all Meta as k, v { v != 2 }`}
+	text := exprs[r.Intn(len(exprs))]
+	used, err, pan, _ := createEval(text)
+	if pan != "" || err != nil {
+		return
+	}
+	var hist []string
+	for step := 0; step < 10; step++ {
+		d := data[r.Intn(len(data))]
+		fresh, _, _, _ := createEval(text)
+		ou, of := evaluate(used, d), evaluate(fresh, d)
+		c.Evals(2)
+		hist = append(hist, fmt.Sprintf("%T/%v=%s", d, reflect.Indirect(reflect.ValueOf(d)).Field(0), ou.Class()))
+		if ou.Class() != of.Class() {
+			c.Violation(fmt.Sprintf("C13 history-dependent same-root-type used=%s fresh=%s", ou.Class(), of.Class()), "a call on a used evaluator differs from a fresh evaluator (data of the same struct type with differently shaped interface fields)",
+				map[string]any{"expression": text, "history": hist, "used_evaluator": ou.String(), "fresh_evaluator": of.String()})
+			return
+		}
+	}
+	c.Count("same_root_type_histories")
+}
+
 func c13Run(c *mon.Ctx, idx int) {
 	r := c.RNG(idx)
+	if idx%20 == 0 {
+		c13SameRootType(c, r)
+	}
 	doc := univ.GenObj(r, 3, true)
 	seed := r.Int63()
 	// a pool of data: the same logical document in several representations
@@ -229,6 +278,12 @@ func permuteMaps(n *univ.Node, r *rand.Rand) *univ.Node {
 func c14Datum(r *rand.Rand) (*univ.Node, []string) {
 	n := 2 + r.Intn(7)
 	keys := []string{"alpha", "beta", "gamma", "delta", "eps", "zeta", "eta", "theta", "omega"}
+	switch r.Intn(4) {
+	case 0: // long keys that share a long prefix
+		keys = []string{"service-web-1", "service-web-2", "service-web-10", "service-web-3", "service-web-a", "service-web-", "service-web-21", "service-web-b", "service-web"}
+	case 1: // keys that are prefixes of one another, non-ASCII
+		keys = []string{"a", "aa", "aaa", "aaaa", "ä", "a\x00", "A", "aaaaaaaaa", "aaaaaaaab"}
+	}
 	r.Shuffle(len(keys), func(i, j int) { keys[i], keys[j] = keys[j], keys[i] })
 	keys = keys[:n]
 	var kv []interface{}
@@ -456,7 +511,7 @@ func init() {
 		NumCases:    func(tier string) int { return tierN(tier, 4000, 150000) },
 		Run:         c13Run,
 		Required: func(tier string) []string {
-			return []string{"histories", "evaluate_calls", "execute_calls", "calls_after_an_error_follow", "call_outcome:T", "call_outcome:F", "call_outcome:E", "history_len:0", "history_len:2", "history_len:3"}
+			return []string{"histories", "same_root_type_histories", "evaluate_calls", "execute_calls", "calls_after_an_error_follow", "call_outcome:T", "call_outcome:F", "call_outcome:E", "history_len:0", "history_len:2", "history_len:3"}
 		},
 	})
 	mon.Register(&mon.Prop{
